@@ -154,13 +154,25 @@ class TrajectoryRun:
         m.addCouplingModel(self.observer)
         segs = cfg.get('segments', [cfg.get('duration', 100.0)])
         self.t_expected = 0.0
+        stages = cfg.get('stage_schedules')
+        self.active_schedule = cfg['schedule']
         for si, seg in enumerate(segs):
             self.segment = si
+            if stages and si > 0:
+                # multi-stage treatment through the public setter between solve() calls
+                self.active_schedule = stages[si]
+                m.setTemperature(*precip.schedule_args(stages[si]))
             t_before = float(m.pData.time[m.pData.n])
             try:
                 m.solve(float(seg), solverType=self.iterator,
                         **({k: cfg[k] for k in ('minDtFrac', 'maxDtFrac') if k in cfg}))
             except StopRun:
+                if cfg.get('cap_per_segment') and si < len(segs) - 1:
+                    # logical step budget per solve() call: go on with the next call from the time reached
+                    self.observer.max_steps += int(cfg['max_steps'])
+                    self.observer.capped = False
+                    R.observe('capped_segments')
+                    continue
                 self.capped = True
                 R.observe('capped_runs')
             except Exception as e:
